@@ -1,6 +1,7 @@
 package props
 
 import (
+	"fmt"
 	"go/ast"
 	"go/constant"
 	"go/types"
@@ -833,4 +834,66 @@ func c01roundRobinPartition(c *an.Ctx) {
 	if n == 0 {
 		r.Fail(f.Name+": no partition choice", c.P.Pos(f.Body.Pos()), "writeBinary no longer indexes the partition writers")
 	}
+}
+
+func init() {
+	old := All["C01"].Run
+	All["C01"].Run = func(c *an.Ctx) {
+		old(c)
+		c01markerNeverPooled(c)
+	}
+	All["C01"].Rules += " R16"
+	addLevel("C01", "the end-of-log marker object of a replay never goes back into the pool of row objects with its marker flag set (the next replay would take a real record for the marker and drop it).")
+}
+
+// c01markerNeverPooled — C01.R16.
+func c01markerNeverPooled(c *an.Ctx) {
+	const E = "engine"
+	r := c.Rule("C01.R16", "K-OWNERSHIP", E+": putWalRowsObjects either clears isLastRows or is never reached where the object is known to be the end-of-log marker")
+	put := obj(r, E+":putWalRowsObjects")
+	flag := obj(r, E+":walRowsObjects.isLastRows")
+	if put == nil || flag == nil {
+		return
+	}
+	// (A) the put resets the flag
+	if f := fn(r, E+":putWalRowsObjects"); f != nil {
+		if f.Find(an.MStore("isLastRows", flag, nil)).Len() > 0 {
+			r.AddSites(1)
+			return
+		}
+	}
+	// (B) no put on a path on which the marker flag is known to be set
+	n := 0
+	for _, cs := range c.P.CallsTo(put) {
+		if cs.Caller == nil {
+			continue
+		}
+		f := c.P.Fn(cs.Caller)
+		if f == nil {
+			continue
+		}
+		n++
+		check := func(g *an.Fn) {
+			edges := g.EdgesImplyingAny(an.AtomLike(`\.isLastRows$`, true))
+			sites := g.Find(an.MCall("putWalRowsObjects", put))
+			for e := range edges {
+				for _, s := range sites.List {
+					if p := g.FPath([]int{e[1]}, s.V, nil, nil); p != nil {
+						r.Fail(g.Name+": marker object pooled", c.P.Pos(s.Node.Pos()), "%s puts a rows object back into the pool on a path on which its isLastRows flag is known to be set, and putWalRowsObjects does not clear the flag: a later replay draws the object for a real record and skips that record as the end-of-log marker; path (lines): %s", g.Name, g.DescribePath(p))
+					}
+				}
+			}
+		}
+		if cs.InLit {
+			for i, lit := range f.FindLits() {
+				if lit.Pos() <= cs.Call.Pos() && cs.Call.End() <= lit.End() {
+					check(f.Lit(lit, fmt.Sprint("lit", i)))
+				}
+			}
+		} else {
+			check(f)
+		}
+	}
+	r.AddSites(n)
+	r.Floor(1, "callers of putWalRowsObjects")
 }
